@@ -123,3 +123,42 @@ def build2(n, k, s1, r1, s2, r2, t2, sigma=SIGMA4, s3=0, r3=0, t3=True):
     if k >= 3 and b1_step(s, n, s3, r3, t3, sigma) is None:
         return None
     return s
+
+
+DIRTY = {'boldness': (1,), 'fg': (31,), 'underline': (4,), 'bg': (48, 5, 9)}
+
+
+def check_render(s, flags=None, well_formed=True):
+    """C01 oracle: every rendering of s, read by the reference terminal, shows base_str with the
+    effective style of the reported settings.  Returns a failure tuple or None."""
+    t = s.base_str
+    n = len(t)
+    tab = S(s, n)
+    try:
+        want = [term.red(x) for x in tab]
+    except term.Ambiguous:
+        return None if not well_formed else ('settings-not-well-formed', tab)
+    combos = flags or [(o, rs, re_) for o in (True, False) for rs in (False, True) for re_ in (False, True)]
+    for (o, rs, re_) in combos:
+        out = s.to_str(None, o, rs, re_)
+        try:
+            cells, final, n_sgr = term.interpret(out)
+        except term.Ambiguous as e:
+            return ('render-not-well-formed', (o, rs, re_), out, str(e))
+        if [c for c, _ in cells] != list(t):
+            return ('render-text', (o, rs, re_), out)
+        for i in range(n):
+            if cells[i][1] != want[i]:
+                return ('render-style', (o, rs, re_), i, out, tab[i])
+        if rs:
+            toks = term.tokens(out)
+            if not toks or toks[0][0] != 'sgr' or (term.codes_of(toks[0][1]) or [1])[0] != 0:
+                return ('no-leading-reset', (o, rs, re_), out)
+            cells2, final2, _ = term.interpret(out, DIRTY)
+            if cells2 != cells or final2 != final:
+                return ('depends-on-prior-state', (o, rs, re_), out)
+        if re_ and n_sgr and final != {}:
+            return ('not-default-after-reset_end', (o, rs, re_), out)
+    if str(s) != s.to_str() or format(s, '') != s.to_str() or s.to_str() != s.to_str(None, True, False, True):
+        return ('str-format-to_str-differ', str(s), format(s, ''), s.to_str())
+    return None
